@@ -52,6 +52,30 @@ theorem greys_close : ∀ i : Fin 24, SrgbClose (greyByte i.val) (val (greys[i.v
 theorem lin_close : ∀ i : Fin 256, SrgbClose i.val (val (lin[i.val]!)) eps := by
   decide +kernel
 
+/-- the true-colour probe colour is the colour of none of the 256 entries of the decoder's palette, and every
+entry has a colour (tables of the current build) -/
+theorem probe_outside :
+    ∀ i : Fin 256, (SurfModel.Color256.decoderPaletteRgb i.val).isSome ∧
+      SurfModel.Color256.decoderPaletteRgb i.val ≠ some SurfModel.Color256.probeColour := by
+  decide +kernel
+
+theorem probe_index_none : SurfModel.Color256.paletteIndexOf SurfModel.Color256.probeColour = none := by
+  decide +kernel
+
+/-- the specification function finds an entry iff there is one -/
+theorem paletteIndexOf_none (c : Nat × Nat × Nat) :
+    SurfModel.Color256.paletteIndexOf c = none ↔
+      ∀ i, i < 256 → SurfModel.Color256.decoderPaletteRgb i ≠ some c := by
+  unfold SurfModel.Color256.paletteIndexOf
+  rw [List.find?_eq_none]
+  constructor
+  · intro h i hi heq
+    have := h i (List.mem_range.mpr hi)
+    simp [heq] at this
+  · intro h i hi
+    have := h i (List.mem_range.mp hi)
+    simpa using this
+
 /-- `0.33f32` and `0.66f32` exactly -/
 def f33 : Rat := 11072963 / 33554432
 def f66 : Rat := 11072963 / 16777216
